@@ -54,7 +54,27 @@ unit(id="modulo.exec", src=MATH + "modulo.rs", path=[("fn", "exec")], mod="modul
          ("modulo.exec.min_by_minus_one", ["C08"],
           "dividend->Int_0 == i64::MIN && divisor->Int_0 == -1 ==> r == Ok::<Variable, ExecError>(Variable::Int(0))"),
      ])
-unit(id="pow.exec", src=MATH + "pow.rs", path=[("fn", "exec")], mod="pow",
+unit(id="pow.wrapping_pow", src=MATH + "pow.rs", path=[("fn", "wrapping_pow")], mod="pow", fragments=["powlemmas"],
+     injections=[
+         ("let mut result: i64 = 1;",
+          "let ghost b0 = base as int;\n    let ghost e0 = exp as nat;\n    let mut result: i64 = 1;\n"
+          "    proof { vstd::arithmetic::mul::lemma_mul_basics(pow(b0, e0)); }"),
+         ("while exp > 0 {",
+          "while exp > 0\n        invariant (result as int * pow(base as int, exp as nat)) % m64() == pow(b0, e0) % m64(),\n"
+          "        decreases exp,\n    {\n        let ghost (r_old, b_old, e_old) = (result as int, base as int, exp as nat);"),
+         ("exp /= 2;",
+          "exp /= 2;\n        proof {\n            lemma_wrap_mod(b_old * b_old);\n"
+          "            if e_old % 2 == 1 { lemma_wrap_mod(r_old * b_old); }\n"
+          "            lemma_pow_step(r_old, b_old, e_old, result as int, base as int);\n        }"),
+         ("    }\n    result\n",
+          "    }\n    proof {\n        vstd::arithmetic::power::lemma_pow0(base as int);\n"
+          "        vstd::arithmetic::mul::lemma_mul_basics(result as int);\n"
+          "        lemma_wrap_unique(result as int, pow(b0, e0));\n    }\n    result\n"),
+     ],
+     ensures=[
+         ("pow.wrapping_pow.modular_power", ["C08"], "r as int == wrap64(pow(base as int, exp as nat))"),
+     ])
+unit(id="pow.exec", src=MATH + "pow.rs", path=[("fn", "exec")], mod="pow", stubs=["pow.wrapping_pow"],
      requires=["base is Int && exp is Int"],
      ensures=[
          ("pow.exec.negative_iff_error", ["C08"], "exp->Int_0 < 0 <==> r is Err"),
